@@ -18,6 +18,8 @@ pub enum Origin {
     Recipe(R),
     /// parsed from this ASCII text
     Parse(String),
+    /// the value of this recipe reached through another construction route (see `route_build`)
+    Route(String, R),
 }
 
 pub struct Build {
@@ -35,18 +37,24 @@ impl Build {
         match &self.origin {
             Origin::Recipe(r) => format!("build({}) under seeds {:?} [iteration order {}]", r.show(), self.script, self.raw.show()),
             Origin::Parse(s) => format!("parse({s:?}) under seeds {:?} [iteration order {}]", self.script, self.raw.show()),
+            Origin::Route(route, r) => format!("{route}({}) [iteration order {}]", r.show(), self.raw.show()),
         }
     }
     pub fn to_json(&self) -> J {
         match &self.origin {
             Origin::Recipe(r) => json!({"recipe": r.to_json(), "seed_script": self.script, "show": r.show()}),
             Origin::Parse(s) => json!({"parse_ascii": s, "seed_script": self.script}),
+            Origin::Route(route, r) => json!({"route": route, "recipe": r.to_json(), "seed_script": self.script, "show": r.show()}),
         }
     }
 }
 
 pub fn rebuild(j: &J) -> Term {
     let script: Vec<u64> = j["seed_script"].as_array().map(|a| a.iter().filter_map(|x| x.as_u64()).collect()).unwrap_or_default();
+    if let Some(route) = j["route"].as_str() {
+        let r = R::from_json(&j["recipe"]);
+        return route_build(route, &r).expect("route must build");
+    }
     if let Some(s) = j["parse_ascii"].as_str() {
         let f = fmts::ascii();
         let (t, _) = narsese::verif_hooks::with_seed_script(&script, || f.e.parse::<Narsese>(s).unwrap().try_into_term().unwrap());
@@ -55,6 +63,78 @@ pub fn rebuild(j: &J) -> Term {
         let r = R::from_json(&j["recipe"]);
         narsese::verif_hooks::with_seed_script(&script, || r.build()).0
     }
+}
+
+pub const ROUTES: [&str; 8] = ["constructor", "clone", "clone_of_clone", "parse_ascii", "parse_han", "lexical_fold", "first_then_push_rest", "half_then_push_half"];
+
+/// The value of `r` reached through a construction route other than the plain constructor: a
+/// clone (which reallocates its containers at exactly their length), the enum parser and the
+/// lexical parser + fold on the formatted text (containers grown element by element), and the
+/// constructor on a prefix of the components followed by `push_components`. None if the route
+/// does not apply.
+pub fn route_build(route: &str, r: &R) -> Option<Term> {
+    let base = r.build();
+    match route {
+        "constructor" => Some(base),
+        "clone" => Some(base.clone()),
+        "clone_of_clone" => Some(base.clone().clone()),
+        "parse_ascii" | "parse_han" => {
+            let f = if route == "parse_ascii" { fmts::ascii() } else { fmts::han() };
+            let s = f.e.format_term(&base);
+            f.e.parse::<Narsese>(&s).ok()?.try_into_term().ok()
+        }
+        "lexical_fold" => {
+            let f = fmts::ascii();
+            let s = f.e.format_term(&base);
+            crate::ops::lex_then_fold(&f, &s).ok()?.try_into_term().ok()
+        }
+        "first_then_push_rest" | "half_then_push_half" => {
+            if !matches!(r.tag.shape(), Shape::Set | Shape::Seq | Shape::Image) || r.kids.len() < 2 {
+                return None;
+            }
+            let k = if route == "first_then_push_rest" { 1 } else { r.kids.len() / 2 };
+            // an image keeps its placeholder index: build the prefix with an index that fits it
+            let mut head = r.clone();
+            head.kids.truncate(k);
+            if r.tag.shape() == Shape::Image && r.idx > k {
+                return None;
+            }
+            let mut t = head.build();
+            t.push_components(r.kids[k..].iter().map(|c| c.build())).ok()?;
+            Some(t)
+        }
+        _ => None,
+    }
+}
+
+/// recipes of the route family: every variable-arity constructor with 1..=17 components
+pub fn route_recipes() -> Vec<R> {
+    let mut out = vec![];
+    for &tag in COMPOUND_TAGS.iter() {
+        for n in [1usize, 2, 3, 4, 5, 6, 7, 8, 9, 10, 12, 15, 16, 17] {
+            let elems: Vec<R> = (0..n).map(|i| if i % 3 == 2 { R::atom(Tag::DVar, &format!("v{i}")) } else { R::word(&format!("w{i}")) }).collect();
+            match tag.shape() {
+                Shape::Set | Shape::Seq => out.push(R::node(tag, elems)),
+                Shape::Image => {
+                    out.push(R::image(tag, 0, elems.clone()));
+                    out.push(R::image(tag, n / 2, elems.clone()));
+                    out.push(R::image(tag, n, elems));
+                }
+                _ => {}
+            }
+        }
+    }
+    // nested: an ordered compound of 5 / 9 components as an element of a set and as an operand
+    for n in [5usize, 9] {
+        let elems: Vec<R> = (0..n).map(|i| R::word(&format!("w{i}"))).collect();
+        for tag in [Tag::Product, Tag::SeqConj] {
+            let inner = R::node(tag, elems.clone());
+            out.push(R::node(Tag::SetExt, vec![inner.clone(), R::word("x")]));
+            out.push(R::pair(Tag::Sim, inner.clone(), R::word("x")));
+            out.push(R::pair(Tag::Inh, R::word("x"), inner));
+        }
+    }
+    out
 }
 
 /// The recipe family (insertion order and duplicates explicit).
@@ -331,6 +411,31 @@ pub fn builds(run: &Run) -> Vec<Build> {
         let raw = R::of_term(&t);
         all.push(Build { origin: Origin::Recipe(r), script, canon: raw.canon(), raw, term: t, class: 0 });
     }
+    // the same value through different construction routes (allocation history must not matter)
+    let mut route_builds = 0u64;
+    for r in route_recipes() {
+        for route in ROUTES {
+            let built = quiet_catch(AssertUnwindSafe(|| route_build(route, &r)));
+            match built {
+                Ok(Some(t)) => {
+                    let raw = R::of_term(&t);
+                    route_builds += 1;
+                    if raw.canon() != r.canon() {
+                        run.violation(
+                            &format!("the route {route} gives {} for the value {}", raw.canon().show(), r.canon().show()),
+                            json!({"op": "route", "route": route, "recipe": r.to_json()}),
+                            &[],
+                        );
+                        continue;
+                    }
+                    all.push(Build { origin: Origin::Route(route.to_string(), r.clone()), script: vec![], canon: raw.canon(), raw, term: t, class: 0 });
+                }
+                Ok(None) => {}
+                Err(p) => run.violation(&format!("the route {route} panics on {}: {p}", r.show()), json!({"op": "route", "route": route, "recipe": r.to_json()}), &[]),
+            }
+        }
+    }
+    run.count("construction_route_builds", route_builds);
     let f = fmts::ascii();
     for s in parse_texts() {
         let make = || f.e.parse::<Narsese>(s).expect("family text must parse").try_into_term().expect("term");
@@ -440,6 +545,15 @@ pub fn check_pair(x: &Build, y: &Build) -> Result<(), String> {
 }
 
 pub fn replay_case(c: &J) -> Result<(), String> {
+    if c["op"].as_str() == Some("route") {
+        let r = R::from_json(&c["recipe"]);
+        let route = c["route"].as_str().unwrap_or("constructor");
+        return match route_build(route, &r) {
+            Some(t) if R::canon_of_term(&t) == r.canon() => Ok(()),
+            Some(t) => Err(format!("the route {route} gives {}", R::canon_of_term(&t).show())),
+            None => Ok(()),
+        };
+    }
     let a = rebuild(&c["a"]);
     let b = rebuild(&c["b"]);
     let expect = R::canon_of_term(&a) == R::canon_of_term(&b);
@@ -460,7 +574,8 @@ pub fn run(run: &Run) {
          (duplicates incl.), over 13 nested items (the same set / symmetric statement in both \
          orders, ordered controls) at length 1..2, 3 symmetric statements over all operand pairs, \
          nested symmetric statements, ordered / image / asymmetric controls, same name under \
-         different atom kinds, 7 parsed texts; every recipe under EVERY distinguishable combination \
+         different atom kinds, hash twins, colliding-hash word pairs, 7 parsed texts, every variable-arity \
+         constructor with 1..17 components through 8 construction routes (constructor, clone, parsers, fold, push); every recipe under EVERY distinguishable combination \
          of hash-iteration orders of its sets; then ALL pairs of builds: (a == b) and (b == a) must \
          equal (canon(a) = canon(b)); reflexivity; derived == on Sentence/Task/Narsese wrappers; \
          distinct = canonically equal pairs whose builds differ in recipe or environment",
